@@ -241,11 +241,29 @@ func addScrubFieldsToSelectionSet(ctx *PlanningContext, selectionSet ast.Selecti
 func addSelectionSetToSanitizedResult(s ast.SelectionSet, ss ...ast.Selection) ast.SelectionSet {
 	ss = lo.Filter(ss, func(sel ast.Selection, i int) bool {
 		f, ok := sel.(*ast.Field)
-		if ok && selectionSetHasFieldNamed(s, f.Alias) {
+		// a field is already there when its response key is taken, whatever field took it
+		// ({ x: name name } selects two fields)
+		if ok && selectionSetHasResponseKey(s, fieldResponseKey(f)) {
 			return false
 		}
 		return true
 
 	})
 	return append(s, ss...)
+}
+
+func fieldResponseKey(f *ast.Field) string {
+	if f.Alias != "" {
+		return f.Alias
+	}
+	return f.Name
+}
+
+func selectionSetHasResponseKey(ss ast.SelectionSet, key string) bool {
+	for _, selection := range ss {
+		if field, ok := selection.(*ast.Field); ok && fieldResponseKey(field) == key {
+			return true
+		}
+	}
+	return false
 }
